@@ -6,6 +6,7 @@ import StepModel.P21.ReaderLemmas20
 import StepModel.P21.ReaderLemmas21
 import StepModel.P21.ReaderLemmas22
 import StepModel.P21.ReaderLemmas23
+import StepModel.P21.ReaderLemmas25
 import StepModel.Generated.P21RWGen
 /-! # C03 — the reader never reports a violating file as clean: property theorems
 
@@ -1989,6 +1990,116 @@ theorem C03_violation_inside_complex_record_confined_partial {F} (ops : FloatOps
     · exact Int.lt_of_le_of_lt (greater_le_left _ _) (hbad _)
     · exact hbad _
 
+/-! ### the composition principle, and an externally mapped record with an unknown part keyword -/
+
+/-- **confinement, the composition principle** (`_partial`): for *any* records - given only by their text, the instance
+    pass 1 makes and the outcome pass 2 has (`Item`) - that satisfy the two record-level facts (`Item1OK` / `Item2OKF` for a
+    record that is created and read, `ItemSkip1` / `ItemSkip2` for one neither pass reads), in any order, number and
+    layout, with pairwise different ids: every record has in the file exactly the outcome it has on its own, the
+    severities reported are the records' in file order, and one skipped record or one severity worse than a user message
+    makes p21read exit with 1.  Every record-level theorem of this file (`anyStep_item1/2`, `fileRec_item1/2`,
+    `C03_unknown_part_keyword_record`, …) composes to the file verdict through this theorem. -/
+theorem C03_confined_items_partial {F} (ops : FloatOps F) (lex : LexCfg) (cfg : RWCfg) (d : Dict) (strict : Bool)
+    (zs : List (Item F × Bool)) (g0 sp gE after : List Byte) (hg0 : Seps g0) (hsp : sp.all isSpace = true) (hgE : Seps gE)
+    (hnd : (zs.map (·.1.id)).Nodup)
+    (h1 : ∀ z ∈ zs, if z.2 then Item1OK cfg d z.1 else ItemSkip1 cfg d z.1)
+    (h2 : ∀ z ∈ zs, if z.2 then Item2OKF ops lex cfg d strict (Mgr.lookup d ({ insts := (keptI zs).map (·.mkI) } : Mgr F)) z.1
+                     else ItemSkip2 ops lex cfg d strict z.1) :
+    ∃ res, readDataSection ops lex cfg d strict false
+        (g0 ++ renderItems (zs.map (·.1)) (endsec sp (gE ++ (endIso ++ 59 :: after)))) = .ok res ∧
+      res.mgr.insts = (keptI zs).map (·.out) ∧ res.reported = ((keptI zs).map (·.sev)).reverse ∧
+      res.created = (keptI zs).length ∧ res.notCreated = nskipI zs ∧ res.valid = (keptI zs).length ∧ res.invalid = nskipI zs ∧
+      (0 < nskipI zs → exitStatus res.sev = 1) ∧
+      ((∃ x ∈ keptI zs, x.sev.toInt < Sev.usermsg.toInt) → exitStatus res.sev = 1) := by
+  obtain ⟨res, hr, hm, hsev, hc, hnc, hv, hinv, hrp⟩ :=
+    readDataSection_itemsX ops lex cfg d strict sp _ hsp (tailOK_endIso gE hgE after) zs g0 hg0 hnd h1 h2
+  refine ⟨res, hr, hm, hrp, hc, hnc, hv, hinv, ?_, ?_⟩
+  · intro hpos
+    rw [C03_exit_iff_worse_than_usermsg, hsev, if_pos hpos]
+    exact Int.lt_of_le_of_lt (greater_le_right _ _) (by decide)
+  · rintro ⟨x, hx, hb⟩
+    rw [C03_exit_iff_worse_than_usermsg, hsev]
+    have hbad := errAfterI_bad (keptI zs) x hx hb
+    split
+    · exact Int.lt_of_le_of_lt (greater_le_left _ _) (hbad _)
+    · exact hbad _
+
+theorem mkCInst_name_mem {F} (d : Dict) (r : CRec F) (c : CPart F) (hc : c ∈ r.parts) (hk : (d.entity? c.name).isSome = true) :
+    c.name ∈ (mkCInst d r : MInst F).parts.map (·.name) := by
+  simp only [mkCInst, List.map_map, Function.comp_def, List.map_id']
+  -- the part's name is known, so it survives the filter, and sorting keeps it
+  have hmem : c.name ∈ (r.parts.map (·.name)).filter (fun n => (d.entity? n).isSome) :=
+    List.mem_filter.mpr ⟨List.mem_map_of_mem (f := fun x : CPart F => x.name) hc, hk⟩
+  have hsort : ∀ (ns : List String) (n : String), n ∈ ns → n ∈ sortNames ns := by
+    intro ns
+    induction ns with
+    | nil => intro n h; cases h
+    | cons x t ih =>
+      intro n h
+      have hins : ∀ (a : String) (l : List String) (b : String), b = a ∨ b ∈ l → b ∈ insertSorted a l := by
+        intro a l
+        induction l with
+        | nil => intro b hb; rcases hb with rfl | hb <;> simp_all [insertSorted]
+        | cons y u ihu =>
+          intro b hb
+          unfold insertSorted
+          split
+          · rcases hb with rfl | hb
+            · simp
+            · exact List.mem_cons_of_mem _ hb
+          · rcases hb with rfl | hb
+            · exact List.mem_cons_of_mem _ (ihu _ (Or.inl rfl))
+            · rcases List.mem_cons.mp hb with rfl | hb
+              · simp
+              · exact List.mem_cons_of_mem _ (ihu _ (Or.inr hb))
+      show n ∈ insertSorted x (sortNames t)
+      rcases List.mem_cons.mp h with rfl | h
+      · exact hins _ _ _ (Or.inl rfl)
+      · exact hins _ _ _ (Or.inr (ih n h))
+  exact hsort _ _ hmem
+
+/-- the record `#id = ( P₁(…) … Pₖ(…) UNKNOWN(…) … );` as the loops see it: created with the parts the dictionary knows,
+    read to INPUT_ERROR with the values of the parts in front of the unknown one -/
+def cxUnknownItem {F} (cfg : RWCfg) (d : Dict) (r : CRec F) (g : List Byte) (cs : List (CPart F)) (sv : CPart F → Sev × Sev) :
+    Item F :=
+  { body := r.text [], g := g, id := r.id, mkI := mkCInst d r,
+    out := { mkCInst d r with parts := cs.foldl (fun ps c => setPart ps c.name c.vals) (mkCInst d r).parts, state := .incomplete },
+    sev := ((cxFold cfg (match (mkCInst d r : MInst F).parts with | p :: _ => p.name | [] => "") sv .null .null cs).1.greater
+             .inputError).greater .warning }
+
+/-- **an externally mapped record with a part whose keyword names no entity** (record level, both passes): pass 1 leaves
+    the unknown keyword out (`STEPcomplex::Initialize`) and - the known names being a legal combination - creates the
+    instance; pass 2 reads the parts in front of the unknown one (each with a known severity), gives up at the unknown
+    keyword with INPUT_ERROR, resynchronises from the record's start and leaves the stream behind the record's `;`: the
+    record satisfies `Item1OK` and `Item2OKF`, so by `C03_confined_items_partial` the file fails (INPUT_ERROR is worse
+    than a user message) and every other record keeps its outcome. -/
+theorem C03_unknown_part_keyword_record {F} (ops : FloatOps F) (lex : LexCfg) (cfg : RWCfg) (d : Dict) (strict : Bool)
+    (hskip : cfg.skipInstanceSkipsComments = true) (hrs : cfg.errorResyncsFromStart = true)
+    (hrep : cfg.complexReportsError = true) (lk : Lookup)
+    (r : CRec F) (g : List Byte) (hl : r.Lex) (hg : Seps g)
+    (hlegal : d.complexSets.contains (sortNames ((r.parts.map (·.name)).filter (fun n => (d.entity? n).isSome))) = true)
+    (sv : CPart F → Sev × Sev) (cs : List (CPart F)) (up : CPart F) (tl : List (CPart F)) (hsplit : r.parts = cs ++ up :: tl)
+    (hknown : ∀ c ∈ cs, (d.entity? c.name).isSome = true) (hunk : d.entity? up.name = none)
+    (hparts : ∀ c ∈ cs, CPartRdS { ops := ops, lex := lex, cfg := cfg, dict := d, lookup := lk }
+                (cfg.complexPartStrict.getD strict) c (sv c).1 (sv c).2) :
+    Item1OK cfg d (cxUnknownItem cfg d r g cs sv) ∧ Item2OKF ops lex cfg d strict lk (cxUnknownItem cfg d r g cs sv) ∧
+    (cxUnknownItem cfg d r g cs sv).sev.toInt < Sev.usermsg.toInt := by
+  refine ⟨⟨hg, rfl, ?_⟩, ⟨hg, rfl, rfl, ?_, ?_⟩, ?_⟩
+  · intro m hnone l c k hc h47 h92
+    obtain ⟨l', h⟩ := createInstance_crec cfg hskip d m r hl hnone hlegal l g hg c k hc h47 h92
+    refine ⟨l', ?_⟩
+    show createInstance cfg d m (G l (r.text [] ++ (g ++ c :: k)) false) = _
+    rw [ctext_nil_append]
+    exact h
+  · simp only [cxUnknownItem, keyOf, setParts_names]
+  · intro st l rest hfind hlk hs
+    have hs' : st.s = G l (r.text rest) false := by rw [← ctext_nil_append]; exact hs
+    exact readInstance_crec_unknown ops lex cfg d strict st hrep hrs hskip r hl l rest hs' (mkCInst d r) hfind rfl rfl sv cs up tl
+      hsplit (fun c hc => by rw [hlk]; exact hparts c hc) hunk
+      (fun c hc => mkCInst_name_mem d r c (by rw [hsplit]; simp [hc]) (hknown c hc))
+  · show (((cxFold cfg _ sv .null .null cs).1.greater .inputError).greater .warning).toInt < Sev.usermsg.toInt
+    exact Int.lt_of_le_of_lt (Int.le_trans (greater_le_left _ _) (greater_le_right _ _)) (by decide)
+
 /-- **a violation inside a typed select value**: `KEYWORD blanks ( blanks value )` for a select attribute where the keyword
     names a non-entity member and the value between the parentheses is read with WARNING (`LeafRdS`, e.g.
     `LeafRdS.integer_junk`: `CNT_T('a')`): the attribute reader returns WARNING with the member chosen and the value unset,
@@ -2458,6 +2569,86 @@ theorem C03_violation_inside_complex_record_witness :
         exact attr_integer _ false wAttrX rfl rfl (by decide) [53] (by decide) (by decide) (by decide) l sk [] sepsNil d rest hd)
   refine ⟨res, hr, by rw [hrep]; decide, hc, by rw [hm]; decide, hex ?_⟩
   exact ⟨(FileRecV.item Generated.rwCfg mxDict (.cxbad mvCRec [10] mvSv)).1, List.mem_cons_self .., by decide⟩
+
+/-- `#1=(A(5)Z(1)B(7));⏎#2=A(5);⏎` - an externally mapped record with a part `Z` the dictionary does not know, before a
+    conforming record: `C03_unknown_part_keyword_record` and `C03_confined_items_partial` apply; the complex instance keeps
+    `A`'s value and is incomplete, INPUT_ERROR is reported for it, the second record is complete, exit 1 -/
+def muPartZ : CPart Nat := { n0 := 90, ns := [], sA := [], body := [49, 41], sB := [], vals := [] }
+def muCRec : CRec Nat := { ds := [49], s1 := [], s2 := [], parts := [mxPartA, muPartZ, mxPartB], s4 := [] }
+def muSv (_ : CPart Nat) : Sev × Sev := (.null, .null)
+def muFile : List (Item Nat × Bool) :=
+  [(cxUnknownItem Generated.rwCfg mxDict muCRec [10] [mxPartA] muSv, true), ((AnyStep.simple wGood).item mxDict, true)]
+
+theorem C03_unknown_part_keyword_witness :
+    ∃ res, readDataSection dblOps Generated.rwLexCfg Generated.rwCfg mxDict false false
+        ([10] ++ renderItems (muFile.map (·.1)) (endsec [] ([10] ++ (endIso ++ 59 :: [10])))) = .ok res ∧
+      res.reported = [Sev.null, Sev.inputError] ∧ res.created = 2 ∧
+      res.mgr.insts.map (·.state) = [.incomplete, .complete] ∧ exitStatus res.sev = 1 := by
+  have sepsNil : Seps ([] : List Byte) := Seps.blanks [] (by decide)
+  have sepsNl : Seps ([10] : List Byte) := Seps.blanks [10] (by decide)
+  have hlexG : wGood.r.Lex := ⟨by decide, by decide, by decide, sepsNil, sepsNil, sepsNil, sepsNil, by decide, by decide, by decide⟩
+  have hscanG : ∀ q ∈ wGood.r.ps, ParamScan q := by
+    intro q hq
+    simp only [wGood, List.mem_singleton] at hq
+    subst hq
+    exact ⟨(Passes.plain 53 (by decide)).toS, sepsNil, sepsNil⟩
+  have hentA : mxDict.entity? "A" = some { name := "A", attrs := [wAttrX], ancestors := ["A"] } := by decide
+  have hlexU : muCRec.Lex := by
+    refine ⟨by decide, by decide, by decide, sepsNil, sepsNil, sepsNil, List.cons_ne_nil _ _, ?_⟩
+    intro c hc
+    simp only [muCRec, List.mem_cons, List.not_mem_nil, or_false] at hc
+    rcases hc with rfl | rfl | rfl
+    · exact ⟨by decide, by decide, by decide, by decide, [53], rfl, Bal.plain 53 [] (by decide) (by decide) (by decide) Bal.nil⟩
+    · exact ⟨by decide, by decide, by decide, by decide, [49], rfl, Bal.plain 49 [] (by decide) (by decide) (by decide) Bal.nil⟩
+    · exact ⟨by decide, by decide, by decide, by decide, [55], rfl, Bal.plain 55 [] (by decide) (by decide) (by decide) Bal.nil⟩
+  have hU : ∀ lk : Lookup, Item1OK Generated.rwCfg mxDict (cxUnknownItem Generated.rwCfg mxDict muCRec [10] [mxPartA] muSv) ∧
+      Item2OKF dblOps Generated.rwLexCfg Generated.rwCfg mxDict false lk (cxUnknownItem Generated.rwCfg mxDict muCRec [10] [mxPartA] muSv) ∧
+      (cxUnknownItem Generated.rwCfg mxDict muCRec [10] [mxPartA] muSv).sev.toInt < Sev.usermsg.toInt := by
+    intro lk
+    refine C03_unknown_part_keyword_record dblOps Generated.rwLexCfg Generated.rwCfg mxDict false (by decide) (by decide) (by decide) lk
+      muCRec [10] hlexU sepsNl (by decide) muSv [mxPartA] muPartZ [mxPartB] rfl ?_ (by decide) ?_
+    · intro c hc
+      simp only [List.mem_singleton] at hc
+      subst hc
+      decide
+    · intro c hc
+      simp only [List.mem_singleton] at hc
+      subst hc
+      exact cpartRdS_of_params _ _ 65 [] [] [] (by decide) (by decide) (by decide) (by decide) _ hentA
+        [(mxP5, Sev.null)] (List.cons_ne_nil _ _) rfl (by
+          intro q hq
+          simp only [List.mem_singleton] at hq
+          subst hq
+          refine ⟨rfl, ⟨53, [], rfl, by decide, by decide, by decide⟩, sepsNil, fun l sk d rest hd => ⟨sk, Or.inl rfl, ?_⟩⟩
+          exact attr_integer _ _ wAttrX rfl rfl (by show Generated.rwLexCfg.criSkipsComments = true; decide) [53] (by decide) (by decide) (by decide) l sk [] sepsNil d rest hd)
+  have hG : ∀ lk : Lookup, AnyStepOK { ops := dblOps, lex := Generated.rwLexCfg, cfg := Generated.rwCfg, dict := mxDict, lookup := lk }
+      false (.simple wGood) := by
+    intro lk
+    refine ⟨⟨hlexG, sepsNl, hscanG, _, hentA, rfl⟩, Or.inl ⟨hlexG, sepsNl, hscanG,
+      [(({ a := wAttrX, v := .one (.atom (.int (Grammar.denoteInteger [53]))), tok := [53], before := [], after := [] } : Param Nat), Sev.null)],
+      _, rfl, ?_, hentA, rfl, rfl, rfl⟩⟩
+    intro q hq
+    simp only [List.mem_singleton] at hq
+    subst hq
+    refine ⟨rfl, ⟨53, [], rfl, by decide, by decide, by decide⟩, sepsNil, fun l sk d rest hd => ⟨sk, Or.inl rfl, ?_⟩⟩
+    exact attr_integer _ false wAttrX rfl rfl (by show Generated.rwLexCfg.criSkipsComments = true; decide) [53] (by decide) (by decide) (by decide) l sk [] sepsNil d rest hd
+  obtain ⟨res, hr, hm, hrep, hc, _, _, _, _, hex⟩ := C03_confined_items_partial dblOps Generated.rwLexCfg Generated.rwCfg mxDict false
+    muFile [10] [] [10] [10] sepsNl (by decide) sepsNl (by decide)
+    (by
+      intro z hz
+      simp only [muFile, List.mem_cons, List.not_mem_nil, or_false] at hz
+      rcases hz with rfl | rfl
+      · simp only [if_true]; exact (hU (fun _ => none)).1
+      · simp only [if_true]; exact anyStep_item1 dblOps Generated.rwLexCfg Generated.rwCfg mxDict false (by decide) _ _ (hG (fun _ => none)))
+    (by
+      intro z hz
+      simp only [muFile, List.mem_cons, List.not_mem_nil, or_false] at hz
+      rcases hz with rfl | rfl
+      · simp only [if_true]; exact (hU _).2.1
+      · simp only [if_true]
+        exact anyStep_item2 dblOps Generated.rwLexCfg Generated.rwCfg mxDict false (by decide) (by decide) (by decide) _ _ (hG _))
+  refine ⟨res, hr, by rw [hrep]; decide, hc, by rw [hm]; decide, hex ?_⟩
+  exact ⟨(cxUnknownItem Generated.rwCfg mxDict muCRec [10] [mxPartA] muSv), List.mem_cons_self .., (hU (fun _ => none)).2.2⟩
 
 /-! ### a stray `/` or `\` in front of a parameter is dropped without a word (finding
     `detect:stray-slash-or-backslash-between-parameters`; the model agrees with the code) -/
